@@ -104,6 +104,7 @@ func runCase(f Fn, args []string) (res string) {
 		}()
 		inputGuards = inputGuards[:0]
 		heldVals = heldVals[:0]
+		heldRenders = heldRenders[:0]
 		out := f(args)
 		for _, g := range inputGuards {
 			if m := g(); m != "" {
@@ -117,6 +118,13 @@ func runCase(f Fn, args []string) (res string) {
 				break
 			}
 		}
+		for _, h := range prevRenders {
+			if h.f() != h.s {
+				out = "SHARED-STATE:a result of the previous case changed while this case ran"
+				break
+			}
+		}
+		prevRenders = append(prevRenders[:0], heldRenders...)
 		// ... and the caller may do with them what it likes: nothing of that may show in later results
 		for _, h := range prevHeld {
 			scribble(h.v)
